@@ -363,10 +363,12 @@ class LinearFilter(LinearFilterProperties):
         if isinstance(k, int) or (isinstance(k, float) and k.is_integer()):
           pairs = [(int(k), v)]
         else:
-          left = int(k)
+          left = int(k // 1) # Floor, also for negative powers
           right = left + 1
           weight_right = k - left
           weight_left = 1. - weight_right
+          if isinstance(v, Iterable): # Both taps need the whole Stream
+            v = thub(v, 2)
           pairs = [(left, v * weight_left), (right, v * weight_right)]
         for key, value in pairs:
           if key in new_poly:
